@@ -523,8 +523,9 @@ Fixpoint span_digits (s : str) : str * str :=
   end.
 Definition all_digits1 (s : str) : bool := match s with [] => false | _ => forallb is_digit s end.
 Definition smart_pt (s : str) : bool :=
-  match s with
-  | 115 :: 109 :: 97 :: 114 :: 116 :: 47 :: d :: 47 :: r => is_digit d && all_digits1 r
+  has_prefix $"smart/" s &&
+  match ndrop 6 s with
+  | d :: c :: r => is_digit d && (c =? 47) && all_digits1 r
   | _ => false
   end.
 (* the text after "<digits> " must be X/D: D a non-empty digit run up to the end, X non-empty *)
